@@ -6,7 +6,7 @@
    ranges, epoch and addresses, sitting on the destination master; every Importing entry has its Migrating twin.
    `proxy_partition_ok` (BrokerPartViewProxy.v): the same for local nodes + peers of a per-proxy view. *)
 From UM Require Import Base.BytesDef Model.Ranges Model.Broker Proofs.BrokerPartRanges Proofs.BrokerPartDefs
-  Proofs.BrokerPartViewProxy Proofs.BrokerPartMain.
+  Proofs.BrokerPartViewProxy Proofs.BrokerPartMain Proofs.BrokerTotal.
 
 Theorem C01_invariant_step : forall s o,
   store_part_inv s -> (forall snap, o = ORestore snap -> store_part_inv snap) -> snd (step s o) <> RPanic ->
@@ -30,6 +30,32 @@ Proof. exact proxy_view_partition. Qed.
 Check C01_proxy_view : forall s, reachable s -> forall lim a ov,
   view_proxy lim s a = Some ov -> exists v, ov = Some v /\ proxy_partition_ok a v.
 Print Assumptions C01_proxy_view.
+
+
+(* The unconditional form: EVERY finite operation sequence from the empty store (a Restore may install any store that is itself the
+   result of such a sequence). No step of such a sequence panics (C12_no_operation_panics below), so nothing is excluded. *)
+Theorem C01_any_history_cluster_view : forall ordered ops, (forall snap, In (ORestore snap) ops -> reachable_any snap) ->
+  forall lim name ov, view_cluster lim (run (init_store ordered) ops) name = Some ov ->
+  exists v, ov = Some v /\ partition_ok (vc_nodes v).
+Proof. exact any_history_cluster_view. Qed.
+Check C01_any_history_cluster_view : forall ordered ops, (forall snap, In (ORestore snap) ops -> reachable_any snap) ->
+  forall lim name ov, view_cluster lim (run (init_store ordered) ops) name = Some ov ->
+  exists v, ov = Some v /\ partition_ok (vc_nodes v).
+Print Assumptions C01_any_history_cluster_view.
+
+Theorem C01_any_history_proxy_view : forall ordered ops, (forall snap, In (ORestore snap) ops -> reachable_any snap) ->
+  forall lim a ov, view_proxy lim (run (init_store ordered) ops) a = Some ov ->
+  exists v, ov = Some v /\ proxy_partition_ok a v.
+Proof. exact any_history_proxy_view. Qed.
+Check C01_any_history_proxy_view : forall ordered ops, (forall snap, In (ORestore snap) ops -> reachable_any snap) ->
+  forall lim a ov, view_proxy lim (run (init_store ordered) ops) a = Some ov ->
+  exists v, ov = Some v /\ proxy_partition_ok a v.
+Print Assumptions C01_any_history_proxy_view.
+
+Theorem C01_no_operation_panics : forall s o, reachable_any s -> snd (step s o) <> RPanic.
+Proof. exact reachable_any_no_panic. Qed.
+Check C01_no_operation_panics : forall s o, reachable_any s -> snd (step s o) <> RPanic.
+Print Assumptions C01_no_operation_panics.
 
 (* non-vacuity: a reachable mid-migration store with a limited view *)
 Definition ex_ops : list op :=
